@@ -20,6 +20,7 @@ import (
 	sdkmath "cosmossdk.io/math"
 	sdk "github.com/cosmos/cosmos-sdk/types"
 	"github.com/cosmos/cosmos-sdk/x/authz"
+	banktypes "github.com/cosmos/cosmos-sdk/x/bank/types"
 	stakingtypes "github.com/cosmos/cosmos-sdk/x/staking/types"
 	transfertypes "github.com/cosmos/ibc-go/v7/modules/apps/transfer/types"
 	"github.com/ethereum/go-ethereum/common"
@@ -275,6 +276,15 @@ func partA(e *env, res *engine.Result, shard, n int) {
 		exp := w.Header.Time.Add(1000 * time.Hour)
 		if sc.pos != "direct" {
 			ca := sdk.AccAddress(callerAddr.Bytes())
+			// the calling contract holds stake of its own (bonded with V1, and an unbonding entry of this
+			// block): acting on it is still a staking operation by a caller that is not the signer
+			for _, m := range []sdk.Msg{banktypes.NewMsgSend(w.Addrs[f.S], ca, sdk.NewCoins(sdk.NewInt64Coin(world.Denom, 20000))),
+				stakingtypes.NewMsgDelegate(ca, w.ValAddr[0], sdk.NewInt64Coin(world.Denom, 10000)),
+				stakingtypes.NewMsgUndelegate(ca, w.ValAddr[0], sdk.NewInt64Coin(world.Denom, 2000))} {
+				if _, err := w.RunMsg(w.Ctx(), m); err != nil {
+					panic(err)
+				}
+			}
 			for _, t := range allTypes {
 				if sc.grant == "S->caller" || sc.grant == "both" {
 					e.saveGrant(w.Addrs[f.S], ca, w.ValAddr, nil, t, exp)
@@ -376,6 +386,16 @@ func partA(e *env, res *engine.Result, shard, n int) {
 						if what == "stake" || what == "unbonding" || (what == "funds" && sc.method == "staking.delegate") {
 							res.AddViolation(engine.Violation{Signature: fmt.Sprintf("C04|method=%s|caller=%s|named=%s|grant=%s|breach=nogrant", sc.method, posClass(sc.pos), sc.named, sc.grant),
 								What: "a contract changed the signer's stake without a grant from the signer", Path: p, Detail: map[string]any{"changed": h, "code": r.Code}})
+						}
+					}
+				}
+				// ... and so do staking operations on the caller's own stake
+				if n == callerName && callerName != "S" && (sc.method == "staking.delegate" || sc.method == "staking.undelegate" || sc.method == "staking.redelegate" || sc.method == "staking.cancelUnbondingDelegation") &&
+					sc.grant != "S->caller" && sc.grant != "both" {
+					for _, what := range h {
+						if what == "stake" || what == "unbonding" {
+							res.AddViolation(engine.Violation{Signature: fmt.Sprintf("C04|method=%s|caller=%s|named=%s|grant=%s|breach=nogrant-own", sc.method, posClass(sc.pos), sc.named, sc.grant),
+								What: "a contract that is not the signer performed a staking operation without a grant from the signer", Path: p, Detail: map[string]any{"changed": h, "code": r.Code}})
 						}
 					}
 				}
